@@ -126,6 +126,13 @@ def seed_stats():
     return "\n".join(rows)
 
 
+def delivered_list():
+    out = []
+    for f in sorted((V / "design_notes").glob("C*.summary.md")):
+        out.append(f.read_text().strip())
+    return "\n\n".join(out) if out else "(summaries not written yet)"
+
+
 def theorems_table():
     rows = ["| id | # | theorems in `lean/OV/Props/Cxx.lean` (names; `_partial` = proved under a stated extra hypothesis, `_refuted`/`_witness` = kernel-checked counterexample) |", "|---|---|---|"]
     for f in sorted((V / "lean" / "OV" / "Props").glob("C*.lean")):
@@ -152,6 +159,7 @@ def main():
     t = replace(t, "checks", checks_table())
     t = replace(t, "theorems", theorems_table())
     t = replace(t, "seedstats", seed_stats())
+    t = replace(t, "delivered", delivered_list())
     p.write_text(t)
     print("open findings:", no, "fixed:", nf)
 
